@@ -272,3 +272,23 @@ def manifest():
 
 
 NOT_APPLICABLE = {}
+
+
+def _merge_as_built():
+    """doc/registry_<Cxx>.json (written by whoever built the check, kept current with it) overrides the
+    description of a claimed check: keys spec, text, note, technique."""
+    import glob
+    import json
+    import os
+    d = os.path.join(os.path.dirname(os.path.dirname(os.path.abspath(__file__))), "doc")
+    for fn in sorted(glob.glob(os.path.join(d, "registry_C*.json"))):
+        pid = os.path.basename(fn)[len("registry_"):-len(".json")]
+        if pid in CLAIMED:
+            with open(fn) as f:
+                o = json.load(f)
+            for k in ("spec", "text", "note", "technique"):
+                if isinstance(o.get(k), str) and o[k].strip():
+                    CLAIMED[pid][k] = o[k].strip()
+
+
+_merge_as_built()
